@@ -41,17 +41,8 @@ def run(ctx, report):
 
 
 def spans(ctx, report):
-    for path, q in ((DFXP, "DFXPWriter._recreate_span"), (EXTRAS, "LegacyDFXPWriter._recreate_span")):
-        fn = ctx.index.get_function(path, q)
-        report.covered(fn)
-        check_flat(report, fn, span_table(ctx, fn), "2")
-    ls = ctx.index.get_function(SAMI, "SAMIWriter._recreate_line_style")
-    sp = ctx.index.get_function(SAMI, "SAMIWriter._recreate_span")
-    report.covered(ls)
-    report.covered(sp)
-    table = span_table(ctx, ls, inline={"self._recreate_span": sp})
-    check_flat(report, ls, table, "2")
-    # every _recreate_text starts a caption with the flag it ended the previous one with: reset per write (C09)
+    from . import markup_writer_fold
+    markup_writer_fold.span_sequences(ctx, report, "R-SPAN-TYPESTATE", "2")
 
 
 def webvtt_nesting(ctx, report):
@@ -69,66 +60,41 @@ def _flatten_add(e):
 
 
 def cue_level_nesting(ctx, report, cv):
-    """Cue-level style tags: in the routine that turns each style key into its (open, close)
-    pair, the opening is appended to one accumulator and the closing is PREPENDED to another;
-    the cue text is emitted between the two accumulators."""
-    owner = pair = None
-    g = ctx.index.get_function(VTT, "WebVTTWriter._group_cues_by_layout")
-    inline_scope = {f.key for f in closure(ctx.index, g)}
-    for f2, n in closure_nodes(ctx.index, cv, (ast.Assign,)):
-        if isinstance(n.value, ast.Call) and (call_name(n.value) or "").endswith("_convert_style_to_text_tag") \
-                and len(n.targets) == 1 and isinstance(n.targets[0], ast.Name) \
-                and f2.key not in inline_scope:      # the inline level is judged above
-            if owner is not None:
-                raise AnalysisError("WebVTT cue-level tags: more than one routine builds cue-level tags")
-            owner, pair = f2, n.targets[0].id
-    if owner is None:
-        raise AnalysisError("WebVTT cue-level tags: the (open, close) pair of a style is not bound to a name")
-    report.covered(owner)
-    acc = {}      # index in the pair -> (accumulator text, 'append' | 'prepend')
-    for n in walk_no_nested(owner.node):
-        tgt = val = None
-        if isinstance(n, ast.AugAssign) and isinstance(n.op, ast.Add):
-            tgt, ops = src(n.target), [ast.parse(src(n.target), mode="eval").body] + _flatten_add(n.value)
-        elif isinstance(n, ast.Assign) and len(n.targets) == 1 and isinstance(n.value, ast.BinOp):
-            tgt, ops = src(n.targets[0]), _flatten_add(n.value)
-        else:
-            continue
-        texts = [src(o) for o in ops]
-        for i in (0, 1):
-            if f"{pair}[{i}]" in texts and tgt in texts and len(texts) == 2:
-                acc[i] = (tgt, "append" if texts.index(tgt) == 0 else "prepend")
-    if set(acc) != {0, 1}:
-        raise AnalysisError(f"WebVTT cue-level tags: accumulation of {pair}[0] / {pair}[1] not recognised ({acc})")
-    ok = acc[0][1] == "append" and acc[1][1] == "prepend" and acc[0][0] != acc[1][0]
-    report.check(ok, "R-ORDER", owner, "cue-level tags: openings appended, closings prepended (proper nesting)",
-                 {"opening": acc[0], "closing": acc[1]}, "3")
-    names = [acc[0][0], acc[1][0]]
-    if owner is not cv:
-        rets = [n.value for n in walk_no_nested(owner.node) if isinstance(n, ast.Return) and n.value is not None]
-        if len(rets) != 1 or not isinstance(rets[0], ast.Tuple) or sorted(src(e) for e in rets[0].elts) != sorted(names):
-            raise AnalysisError("WebVTT cue-level tags: the helper does not return its two accumulators")
-        pos = [[src(e) for e in rets[0].elts].index(nm) for nm in names]
-        names = None
-        for n in walk_no_nested(cv.node):
-            if isinstance(n, ast.Assign) and isinstance(n.value, ast.Call) and isinstance(n.targets[0], ast.Tuple) \
-                    and (call_name(n.value) or "").split(".")[-1] == owner.name:
-                el = [src(e) for e in n.targets[0].elts]
-                names = [el[pos[0]], el[pos[1]]]
-        if names is None:
-            raise AnalysisError("WebVTT cue-level tags: the helper's result is not unpacked in _convert_caption")
-    found = None
-    for n in walk_no_nested(cv.node):
-        if isinstance(n, ast.BinOp) and isinstance(n.op, ast.Add):
-            texts = [src(o) for o in _flatten_add(n)]
-            if names[0] in texts and names[1] in texts:
-                found = texts
-                break
-    if found is None:
-        raise AnalysisError("WebVTT cue-level tags: no emission uses both accumulators")
-    i, j = found.index(names[0]), found.index(names[1])
-    report.check(j == i + 2, "R-ORDER", cv, "cue text sits between the cue-level opening and closing tags",
-                 {"emitted": found}, "3")
+    """Cue-level style tags, folded: WebVTTWriter.write on a caption whose own style switches on every subset of
+    italics / bold / underline; the payload line must open with the tags, close them in reverse order (proper nesting),
+    and hold the cue text in between."""
+    import itertools
+    from . import markup_writer_fold as MW
+    W = MW.World(ctx)
+    tag = {"italics": "i", "bold": "b", "underline": "u"}
+    bad = []
+    n = 0
+    fn = None
+    for k in range(0, 4):
+        for keys in itertools.combinations(sorted(tag), k):
+            n += 1
+            spec = {"langs": {"en-US": [(1000000, 2000000, ["cue text"], None, {kk: True for kk in keys})]}}
+            try:
+                fn, doc, _ = W.write(VTT, "WebVTTWriter", W.caption_set(spec))
+            except MW.FoldRaise as e:
+                bad.append({"caption_style": list(keys), "raises": e.exc_name or str(e)})
+                continue
+            except AnalysisError as e:
+                raise AnalysisError(f"WebVTTWriter.write cannot be folded on a caption with its own style: {e}")
+            lines = doc.split("\n")
+            payload = next((lines[i_ + 1] for i_, l in enumerate(lines) if "-->" in l and i_ + 1 < len(lines)), "")
+            m = re.fullmatch(r"((?:<[ibu]>)*)cue text((?:</[ibu]>)*)", payload)
+            if not m:
+                bad.append({"caption_style": list(keys), "payload": payload, "why": "cue text is not between opening and closing tags"})
+                continue
+            opened = re.findall(r"<([ibu])>", m.group(1))
+            closed = re.findall(r"</([ibu])>", m.group(2))
+            if sorted(opened) != sorted(tag[k_] for k_ in keys) or closed != opened[::-1]:
+                bad.append({"caption_style": list(keys), "payload": payload,
+                            "why": "tags do not match the style / are not closed in reverse order"})
+    where = fn if fn is not None else cv
+    report.check(not bad, "R-ORDER", where, "cue-level tags: one pair per style that is on, closed in reverse order, cue text in between",
+                 {"captions_folded": n, "mismatches": bad[:3]}, "3")
 
 
 def scc_pipeline(ctx, report):
